@@ -15,6 +15,20 @@ Theorem C13_run_is_spec :
     run chunk maxlen file flen init ops = map (spec maxlen file flen) ops.
 Proof. intros chunk maxlen file flen ops Hc. apply (run_spec chunk maxlen file flen Hc ops init). apply Inv_init. Qed.
 
+(* concurrent readers: with the buffer manager's mutex held for the whole of get_range_location (and the string cache's for its lookups), a
+   concurrent execution is some interleaving of the threads' calls, each call one step of `run`.  Whatever the interleaving - any list of
+   (thread, call) pairs - every thread gets exactly the specified answers to its own calls, in its own order *)
+Theorem C13_schedule_independent :
+  forall (chunk maxlen : N) (file : N -> N) (flen : N) (sched : list (nat * op)) (t : nat),
+    0 < chunk ->
+    map snd (filter (fun x => Nat.eqb (fst x) t) (combine (map fst sched) (run chunk maxlen file flen init (map snd sched)))) =
+    map (spec maxlen file flen) (map snd (filter (fun x => Nat.eqb (fst x) t) sched)).
+Proof.
+  intros chunk maxlen file flen sched t Hc. rewrite (C13_run_is_spec chunk maxlen file flen (map snd sched) Hc).
+  induction sched as [|[u o] r IH]; [reflexivity|]. cbn [map fst snd combine filter].
+  destruct (Nat.eqb u t); cbn [map snd]; rewrite IH; reflexivity.
+Qed.
+
 (* the constants the code uses today *)
 Theorem C13_constants : 0 < c_chunk_size /\ 0 < c_max_len_incl_delim.
 Proof. split; vm_compute; reflexivity. Qed.
@@ -53,6 +67,7 @@ Proof.
 Qed.
 
 Print Assumptions C13_run_is_spec.
+Print Assumptions C13_schedule_independent.
 Print Assumptions C13_constants.
 Print Assumptions C13_read_exact.
 Print Assumptions C13_in_bounds_succeeds.
